@@ -16,7 +16,7 @@ pub fn prop() -> Prop {
     Prop {
         id: "C12",
         level: "exploration",
-        rule: "(1) the call slice: a prelude of functions with 0-2 parameters and 0-2 locals (a marker function that prints its argument so evaluation order is observable, non-commutative bodies, an accumulating recursion, a function taking a function, a function returning a function) and every expression of up to N nodes over calls of them in operand, argument, array-element, condition and initialiser positions, compared with the reference interpreter; (2) a generated family of 0..4 parameters x 0..4 locals x every pending-operand shape; (3) directed recursion: self and mutual recursion with 0, 1 and 2 pending operands per level to depth 1, 2, 3, 10, 200, 5 000, 20 000 and across the 65 535-slot limit (beyond the limit: an error, never a wrong value). Non-trivial = at least one user function call executed and defined by the model; distinct = distinct texts",
+        rule: "(1) the call slice: a prelude of functions with 0-2 parameters and 0-2 locals (a marker function that prints its argument so evaluation order is observable, non-commutative bodies, an accumulating recursion, a function taking a function, a function returning a function) and every expression of up to N nodes over calls of them in operand, argument, array-element, condition and initialiser positions, compared with the reference interpreter; (2) a generated family of 0..4 parameters x 0..4 locals x every pending-operand shape, incl. empty bodies and locals in sibling blocks; an arity ladder (every parameter count up to 12 and around every power of two up to the 255 the call instruction carries, x 0/1/3 locals, every parameter read back); (3) directed recursion: self and mutual recursion with 0, 1 and 2 pending operands per level to depth 1, 2, 3, 10, 200, 5 000, 20 000 and across the 65 535-slot limit (beyond the limit: an error, never a wrong value). Non-trivial = at least one user function call executed and defined by the model; distinct = distinct texts",
         assumptions: &["arity mismatch is unspecified (U6) and not compared", "beyond 65 535 live stack slots only 'an error, not a wrong value or crash' is required (U9)"],
         run,
         replay,
@@ -125,6 +125,21 @@ fn shapes() -> Vec<Vec<Stmt>> {
             ] {
                 out.push(vec![marker.clone(), def_nv.clone(), let_("g", int(55)), es(host), es(id("g"))]);
             }
+            // an empty body, and locals that live only in sibling blocks (slots reused between the blocks)
+            let def_empty = es(func("fe", &pr, vec![]));
+            let mut blocks: Vec<Stmt> = Vec::new();
+            for b in 0..nl.min(3) {
+                let with = if np > 0 { id(&params[b % np]) } else { int(b as i64 + 1) };
+                let inner: Vec<Stmt> = (0..=b).map(|j| let_(&format!("b{b}x{j}"), infix(int(10 * (b as i64 + 1) + j as i64), Operator::Subtract, with.clone()))).chain(std::iter::once(print1(id(&format!("b{b}x{b}"))))).collect();
+                blocks.push(Stmt::Block(inner));
+            }
+            blocks.push(es(array(params.iter().map(|p| id(p)).collect())));
+            let def_blocks = es(func("fb", &pr, blocks));
+            let ce = || calln("fe", args.clone());
+            let cb = || calln("fb", args.clone());
+            for host in [array(vec![int(7), ce(), int(8)]), calln("print", vec![string("{} {}"), ce(), int(3)]), array(vec![cb(), ce(), cb()])] {
+                out.push(vec![marker.clone(), def_empty.clone(), def_blocks.clone(), let_("g", int(55)), es(host), es(id("g"))]);
+            }
             for h in hosts {
                 out.push(vec![marker.clone(), def.clone(), let_("g", int(55)), es(h), es(id("g"))]);
                 // the same from inside another activation, with its own locals around the call
@@ -135,6 +150,48 @@ fn shapes() -> Vec<Vec<Stmt>> {
                     es(calln("outer", vec![int(77)])),
                 ]);
             }
+        }
+    }
+    out
+}
+
+/// Arity ladder: every parameter count up to 12 and around every power of two up to the 255 the call
+/// instruction can carry, x 0, 1 and 3 locals; every parameter is read back (checksum over all of them and
+/// the first / middle / last individually), with operands pending around the call and from inside another activation.
+fn arity_ladder() -> Vec<Vec<Stmt>> {
+    let mut out = Vec::new();
+    let mut counts: Vec<usize> = (0..=12).collect();
+    counts.extend([15, 16, 17, 31, 32, 33, 63, 64, 65, 127, 128, 129, 200, 253, 254, 255]);
+    for n in counts {
+        for nl in [0usize, 1, 3] {
+            let params: Vec<String> = (0..n).map(|i| format!("p{i}")).collect();
+            let pr: Vec<&str> = params.iter().map(|s| s.as_str()).collect();
+            let mut body: Vec<Stmt> = Vec::new();
+            for j in 0..nl {
+                let with = if n > 0 { id(&params[(j * 7 + 1) % n]) } else { int(j as i64) };
+                body.push(let_(&format!("l{j}"), infix(infix(with, Operator::Multiply, int(2)), Operator::Subtract, int(j as i64))));
+            }
+            // a position-weighted checksum: sum of p_i * (i + 1)
+            let mut sum = int(0);
+            for (i, p) in params.iter().enumerate() {
+                sum = infix(sum, Operator::Add, infix(id(p), Operator::Multiply, int(i as i64 + 1)));
+            }
+            let mut picks: Vec<nederlang::verif::Expr> = vec![sum];
+            if n > 0 {
+                picks.extend([id(&params[0]), id(&params[n / 2]), id(&params[n - 1])]);
+            }
+            picks.extend((0..nl).map(|j| id(&format!("l{j}"))));
+            body.push(es(array(picks)));
+            let def = es(func("f", &pr, body));
+            let args: Vec<nederlang::verif::Expr> = (0..n).map(|i| int(3 * i as i64 + 1)).collect();
+            let c = || calln("f", args.clone());
+            out.push(vec![def.clone(), es(c())]);
+            out.push(vec![def.clone(), es(array(vec![int(7), c(), int(8)]))]);
+            out.push(vec![
+                def.clone(),
+                es(func("outer", &["q"], vec![let_("before", int(1)), let_("r", c()), let_("after", int(2)), es(array(vec![id("before"), id("r"), id("after"), id("q")]))])),
+                es(infix(calln("lengte", vec![calln("outer", vec![int(77)])]), Operator::Add, int(100))),
+            ]);
         }
     }
     out
@@ -219,6 +276,22 @@ fn run(sh: &mut Shard) {
             }
         }
     }
+    // (2b) arity ladder
+    for prog in arity_ladder() {
+        if !sh.mine() {
+            continue;
+        }
+        sh.begin(&|| printer::program(&prog));
+        sh.count("family:arity-ladder");
+        if let Some(r) = differential(sh, "calls", &prog, opts(1_000_000)) {
+            if !matches!(r.model.end, End::Unspec(_) | End::Diverge) {
+                sh.nontrivial(&printer::program(&prog));
+            } else {
+                sh.machinery(format!("the model does not define an arity-ladder program: {}", model_end_text(&r.model.end)));
+                return;
+            }
+        }
+    }
     // (2) shapes
     for prog in shapes() {
         if !sh.mine() {
@@ -264,7 +337,7 @@ fn replay(sh: &mut Shard, case: &Value) {
 }
 
 fn vacuity(m: &Merged) -> Option<String> {
-    for fam in ["deep-recursion", "shapes", "call-slice"] {
+    for fam in ["deep-recursion", "shapes", "arity-ladder", "call-slice"] {
         if m.counters.get(&format!("family:{fam}")).copied().unwrap_or(0) < 50 {
             return Some(format!("family {fam} produced fewer than 50 cases"));
         }
